@@ -950,8 +950,12 @@ impl<E: El> Rest<E> {
                                 }
                             }
                             Kind::Batched => {
-                                let exp: Vec<VectorDiff<E>> = msgs[s.next_seq..].iter().flat_map(|m| m.diffs.iter().cloned()).collect();
-                                if batch != &exp {
+                                // the same diffs, concatenated: one item is a non-empty
+                                // prefix of what is pending (whether it must be *all* of
+                                // it is C06's business, whether it may end inside a
+                                // message is C07's)
+                                let exp: Vec<VectorDiff<E>> = msgs[s.next_seq..].iter().flat_map(|m| m.diffs.iter().cloned()).skip(s.mid).collect();
+                                if batch.len() > exp.len() || batch[..] != exp[..batch.len()] {
                                     disagreement = Some((
                                         "batch-differs-from-concatenation".to_string(),
                                         format!("{name}: received {:?}, the pending messages concatenated are {:?}", batch, exp),
@@ -1203,21 +1207,56 @@ impl<E: El> Rest<E> {
                                 return Err(viol(prop, step, format!("inapplicable/{}", diff_kind(d)), format!("{name}: {e}")));
                             }
                         }
-                        let rep = kids(&s.replica);
-                        if &rep != contents {
+                        // advance through the message log by the number of diffs taken
+                        let start_seq = s.next_seq;
+                        let mut left = batch.len();
+                        while left > 0 {
+                            let rest = msgs[s.next_seq].diffs.len() - s.mid;
+                            if left >= rest {
+                                left -= rest;
+                                s.mid = 0;
+                                s.next_seq += 1;
+                            } else {
+                                s.mid += left;
+                                left = 0;
+                            }
+                        }
+                        let up_to_date = s.next_seq == total && s.mid == 0;
+                        if s.mid != 0 && prop == "C07" {
                             return Err(viol(
-                                lag_prop(prop),
+                                "C07",
                                 step,
-                                "batched-item-not-up-to-date",
-                                format!("{name}: after one batched item replica is {:?}, contents {:?}", rep, contents),
+                                "batched-item-exposes-intermediate-state",
+                                format!("{name}: one batched item ends after diff {} of message {}: the replica {:?} is a state inside that message", s.mid, s.next_seq, kids(&s.replica)),
                             ));
                         }
-                        if total - s.next_seq > 1 {
+                        if !up_to_date && prop == "C06" {
+                            return Err(viol(
+                                "C06",
+                                step,
+                                "batched-item-not-up-to-date",
+                                format!("{name}: one batched item delivered {} diff(s) but {} message(s) stay undelivered", batch.len(), total - s.next_seq),
+                            ));
+                        }
+                        if s.mid == 0 {
+                            let rep = kids(&s.replica);
+                            let exp_state = if s.next_seq == 0 { None } else { Some(&msgs[s.next_seq - 1].post) };
+                            if let Some(exp_state) = exp_state {
+                                if &rep != exp_state {
+                                    return Err(viol(
+                                        prop,
+                                        step,
+                                        "message-does-not-reach-post-state",
+                                        format!("{name}: after message {} replica is {:?}, the vector was {:?}", s.next_seq - 1, rep, exp_state),
+                                    ));
+                                }
+                            }
+                        }
+                        if s.next_seq - start_seq > 1 {
                             st.mark("batched_concatenated_several_messages");
                         } else {
                             st.mark("message_replayed_to_post_state");
                         }
-                        s.next_seq = total;
                     }
                 }
                 Ok(Polled::Item)
